@@ -191,11 +191,11 @@ def check_rules(reg):
         if seg['kind'] != 'rw':
             continue
         rule = seg['rule'].split()[0]
-        gen = rules.GENERATORS.get(rule)
+        gen = rules.apply if rules.has_generator(seg['rule']) else None
         entry = {'rule': seg['rule'], 'orig': ' '.join(texts(lex(seg['orig'])[0])), 'machine_checked': False}
         if gen is not None:
             try:
-                want = gen(seg['orig'], seg['rule'])
+                want = gen(seg['rule'], seg['orig'])
             except rules.NoMatch as e:
                 raise MirrorError('region %s: rule %s does not match original %r (%s)' % (reg.name, rule, seg['orig'], e))
             got = texts(lex(strip_ghost(seg.get('code', seg['text'])))[0])
@@ -279,13 +279,13 @@ def weave(reg, cur_toks):
                 replaced.append((image(a), image(a) + (b - a), seg['text']))
             else:
                 rule = seg['rule'].split()[0]
-                gen = rules.GENERATORS.get(rule)
+                gen = rules.apply if rules.has_generator(seg['rule']) else None
                 j1, j2 = image(a), image(b)
                 if gen is None or j2 <= j1:
                     raise Undecided('REWEAVE-RW: code under rewrite %s changed in %s and the rule cannot be re-applied' % (seg['rule'], reg.name))
                 new_orig = render(cur_toks[j1:j2])
                 try:
-                    new_text = gen(new_orig, seg['rule'])
+                    new_text = gen(seg['rule'], new_orig)
                 except rules.NoMatch as e:
                     raise Undecided('REWEAVE-RW: rule %s no longer matches edited code in %s: %s' % (rule, reg.name, e))
                 # ghost lines of the replacement are re-attached at the end of the regenerated head
